@@ -61,6 +61,11 @@ pub struct Call {
     /// (used with clients that never complete; less than half the handshake timeout)
     #[serde(default)]
     pub poll_delay_ms: u16,
+    /// the future's very first poll is made with another waker than the one of the task that then
+    /// drives it (an eager `now_or_never`-style poll, or a poll in one task before the future is
+    /// moved into another)
+    #[serde(default)]
+    pub probe_first: bool,
 }
 
 #[derive(Clone, Debug, Serialize, Deserialize, PartialEq)]
@@ -269,6 +274,13 @@ async fn exchange<S: tokio::io::AsyncRead + tokio::io::AsyncWrite + Unpin>(s: &m
     // without shutting down (request/response style)
     s.write_all(b"K").await.map_err(|e| format!("client ack: {e}"))?;
     s.flush().await.map_err(|e| format!("client ack flush: {e}"))?;
+    // the server was asked to write exactly `down` bytes: nothing more may follow
+    let mut extra = [0u8; 1];
+    if let Ok(Ok(n)) = tokio::time::timeout(Duration::from_millis(300), s.read(&mut extra)).await {
+        if n > 0 {
+            return Err(format!("the client received more than the {down} bytes the server wrote (duplicated data)"));
+        }
+    }
     Ok(())
 }
 
@@ -408,6 +420,7 @@ async fn run_async(c: &Case) -> CaseResult {
         };
         let client = call.client.clone();
         let ch = tokio::task::spawn_local(async move { run_client(client, client_end).await });
+        let probe_first = call.probe_first;
         let poll_delay = match &call.client {
             Client::Complete { .. } => 0,
             _ => (call.poll_delay_ms as u64).min(c.timeout_ms as u64 / 2),
@@ -436,7 +449,7 @@ async fn run_async(c: &Case) -> CaseResult {
                 }
             };
             match fut {
-                Fut::R(f) => match f.await {
+                Fut::R(f) => match ProbeFirst::new(f, probe_first).await {
                     Ok(mut s) => {
                         mark(Outcome::Ok);
                         integrity = Some(server_exchange(&mut s, up, down, slices).await);
@@ -449,7 +462,7 @@ async fn run_async(c: &Case) -> CaseResult {
                         mark(Outcome::Tls)
                     }
                 },
-                Fut::O(f) => match f.await {
+                Fut::O(f) => match ProbeFirst::new(f, probe_first).await {
                     Ok(mut s) => {
                         mark(Outcome::Ok);
                         integrity = Some(server_exchange(&mut s, up, down, slices).await);
@@ -524,7 +537,8 @@ async fn run_async(c: &Case) -> CaseResult {
                     match &rec.integrity {
                         Some(Ok(())) => {}
                         Some(Err(e)) => return Err(Fail::new("C18/integrity", format!("call {}: {} (payload up {} / down {} bytes)", i, e, up, down))),
-                        None => {}
+                        // (the run waited 20 s of virtual time beyond the handshake timeout)
+                        None => return Err(Fail::new("C18/integrity", format!("call {}: the handshake completed but the server's exchange (read {} bytes, write {} bytes, flush, wait for the client's acknowledgement) had not finished 20 s later: data written through the TLS stream never got through", i, up, down))),
                     }
                     if c.slices >= 2 && c.pipe_cap != 0 && (*down as usize) > c.pipe_cap as usize {
                         vectored_backpressure = true;
@@ -575,6 +589,7 @@ async fn run_async(c: &Case) -> CaseResult {
     obs.label_if(vectored_backpressure, "vectored-write-under-backpressure");
     obs.label_if(c.pipe_cap != 0, "small-pipe");
     obs.label_if(forced_over_limit, "called-although-not-ready");
+    obs.label_if(calls.iter().any(|x| x.probe_first), "first-poll-with-another-waker");
     obs.label_if(c.relimit.is_some() && services.len() >= 2, "limit-setter-called-between-services");
     obs.label_if(calls.iter().any(|x| x.poll_delay_ms > 0 && !matches!(x.client, Client::Complete { .. })), "future-polled-late");
     obs.label_if(c.cloned, "cloned-factory");
@@ -638,7 +653,7 @@ fn client(timeout_ms: u32) -> impl Strategy<Value = Client> {
 pub fn strategy() -> impl Strategy<Value = Case> {
     (prop::collection::vec(lib(), 1..3), 1usize..4, prop::sample::select(vec![100u32, 500, 1000, 3000, 5000]), prop::bool::weighted(0.4))
         .prop_flat_map(|(libs, limit, timeout_ms, cloned)| {
-            let calls = prop::collection::vec((0u8..2, client(timeout_ms), prop_oneof![3 => Just(0u32), 2 => 0u32..(timeout_ms + 200)]).prop_map(|(svc, client, at)| Call { svc, client, at, force: false, poll_delay_ms: 0 }), 1..6)
+            let calls = prop::collection::vec((0u8..2, client(timeout_ms), prop_oneof![3 => Just(0u32), 2 => 0u32..(timeout_ms + 200)]).prop_map(|(svc, client, at)| Call { svc, client, at, force: false, poll_delay_ms: 0, probe_first: false }), 1..6)
                 .prop_flat_map(|calls| {
                     let n = calls.len();
                     (Just(calls), prop::collection::vec((prop::bool::weighted(0.25), prop_oneof![2 => Just(0u16), 1 => 1u16..2000]), n))
@@ -647,6 +662,7 @@ pub fn strategy() -> impl Strategy<Value = Case> {
                     for (c, (force, d)) in calls.iter_mut().zip(extra) {
                         c.force = force;
                         c.poll_delay_ms = d;
+                        c.probe_first = d % 3 == 1 || (d == 0 && force);
                     }
                     calls
                 });
@@ -655,7 +671,35 @@ pub fn strategy() -> impl Strategy<Value = Case> {
         .prop_map(|(libs, limit, timeout_ms, cloned, calls, pipe_cap, slices, relimit)| Case { libs, limit, timeout_ms, cloned, calls, pipe_cap, slices, relimit })
 }
 
-const RULE: &str = "(1..2 acceptor services on one thread from {rustls 0.23, OpenSSL}, limit 1..3, handshake timeout in {0.1, 0.5, 1, 3, 5} s, configured factory used directly or cloned, 1..5 calls at generated virtual times, a quarter of them made although the service answered not-ready, futures of non-completing clients first polled up to timeout/2 after the call, max_concurrent_tls_connect optionally called with another value between building the two services; clients: complete (rustls or OpenSSL client, generated delay before each write, payloads up to 64 KiB both ways, the server writing its payload with write_all or with vectored writes of 2..4 slices), stall after n bytes, garbage with/without a record header, disconnect) over in-memory pipes (1 MiB per direction, or only 0.7..20 KB so that writers meet Pending in the middle of a write) under Tokio's paused clock, each case on a fresh thread; oracle: poll_ready of every service on the thread (all are asked before each call) is Pending iff the number of handshakes in progress on the thread is >= the limit and a parked poll is woken when a handshake ends; every call resolves to Ok / TLS error / Timeout no later than the timeout, Timeout never earlier, a completing client with total delay below the timeout gets Ok and both payloads arrive unchanged, a stalled client gets Timeout; non-trivial = a stalled or delayed client, the limit reached, or a payload > 16 KiB";
+/// polls the wrapped future once with a foreign (no-op) waker before driving it normally
+struct ProbeFirst<F: std::future::Future> {
+    inner: std::pin::Pin<Box<F>>,
+    probe: bool,
+}
+impl<F: std::future::Future> ProbeFirst<F> {
+    fn new(f: F, probe: bool) -> Self {
+        ProbeFirst { inner: Box::pin(f), probe }
+    }
+}
+impl<F: std::future::Future> std::future::Future for ProbeFirst<F> {
+    type Output = F::Output;
+    fn poll(mut self: std::pin::Pin<&mut Self>, cx: &mut std::task::Context<'_>) -> std::task::Poll<F::Output> {
+        if self.probe {
+            self.probe = false;
+            struct Nop;
+            impl std::task::Wake for Nop {
+                fn wake(self: std::sync::Arc<Self>) {}
+            }
+            let w = std::task::Waker::from(std::sync::Arc::new(Nop));
+            if let std::task::Poll::Ready(v) = self.inner.as_mut().poll(&mut std::task::Context::from_waker(&w)) {
+                return std::task::Poll::Ready(v);
+            }
+        }
+        self.inner.as_mut().poll(cx)
+    }
+}
+
+const RULE: &str = "(1..2 acceptor services on one thread from {rustls 0.23, OpenSSL}, limit 1..3, handshake timeout in {0.1, 0.5, 1, 3, 5} s, configured factory used directly or cloned, 1..5 calls at generated virtual times, a quarter of them made although the service answered not-ready, futures of non-completing clients first polled up to timeout/2 after the call, a third of the futures polled once with a foreign waker before their task drives them, max_concurrent_tls_connect optionally called with another value between building the two services; clients: complete (rustls or OpenSSL client, generated delay before each write, payloads up to 64 KiB both ways, the server writing its payload with write_all or with vectored writes of 2..4 slices), stall after n bytes, garbage with/without a record header, disconnect) over in-memory pipes (1 MiB per direction, or only 0.7..20 KB so that writers meet Pending in the middle of a write) under Tokio's paused clock, each case on a fresh thread; oracle: poll_ready of every service on the thread (all are asked before each call) is Pending iff the number of handshakes in progress on the thread is >= the limit and a parked poll is woken when a handshake ends; every call resolves to Ok / TLS error / Timeout no later than the timeout, Timeout never earlier, a completing client with total delay below the timeout gets Ok and both payloads arrive unchanged, a stalled client gets Timeout; non-trivial = a stalled or delayed client, the limit reached, or a payload > 16 KiB";
 
 pub fn run(ctx: &Ctx) {
     ctx.assume("virtual time (tokio::time::pause) with millisecond sampling; client delays never sum to within 10 ms of the timeout (the tie is not ranked by the property); only the rustls 0.23 and OpenSSL acceptors named in the quantifier are built");
